@@ -283,3 +283,40 @@ func (o *Oracle) SubMulti(xs, ys [][]int) bool {
 	}
 	panic("oracle submulti: " + a)
 }
+
+// SoftLin is a weighted soft constraint.
+type SoftLin struct {
+	Weight int `json:"w"`
+	C      Lin `json:"c"`
+}
+
+func encSoft(ss []SoftLin) string {
+	parts := make([]string, len(ss))
+	for i, s := range ss {
+		parts[i] = strconv.Itoa(s.Weight) + " " + encLin(s.C)
+	}
+	return strings.Join(parts, " ; ")
+}
+
+// MaxSat returns (false,0) when the hard part is unsatisfiable, else the minimal violated weight.
+func (o *Oracle) MaxSat(n int, hard []Lin, soft []SoftLin) (bool, int) {
+	a := o.Ask(fmt.Sprintf("maxsat %d | %s | %s", n, encProblem(hard), encSoft(soft)))
+	if a == "none" {
+		return false, 0
+	}
+	if strings.HasPrefix(a, "some ") {
+		if k, err := strconv.Atoi(a[5:]); err == nil {
+			return true, k
+		}
+	}
+	panic("oracle maxsat: " + a)
+}
+
+func (o *Oracle) Violated(soft []SoftLin, m []bool) int {
+	a := o.Ask(fmt.Sprintf("violated %s | %s", encSoft(soft), encBools(m)))
+	k, err := strconv.Atoi(a)
+	if err != nil {
+		panic("oracle violated: " + a)
+	}
+	return k
+}
